@@ -422,6 +422,10 @@ class Interp:
             return self.call(e, env)
         if isinstance(e, ast.IfExp):
             return self.eval(e.body if self.truth(self.eval(e.test, env), e.test) else e.orelse, env)
+        if isinstance(e, ast.NamedExpr) and isinstance(e.target, ast.Name):
+            v = self.eval(e.value, env)
+            env[e.target.id] = v
+            return v
         if isinstance(e, ast.GeneratorExp) and len(e.generators) == 1:
             return self.eval(ast.ListComp(elt=e.elt, generators=e.generators), env)
         if isinstance(e, ast.ListComp) and len(e.generators) == 1 and not e.generators[0].is_async:
@@ -504,6 +508,10 @@ class Interp:
                     if isinstance(k, tuple) and k and k[0] == "class" and isinstance(o, Obj) and o._cls is not None and k[1] in self.prog.mro(o._cls):
                         return True
                 return False
+            if nm == "next" and len(args) == 2 and isinstance(args[0], list):
+                # next(<generator expression>, default): the generator was evaluated eagerly (its conditions have no side effects
+                # in the vocabulary), the first element is what next() would produce
+                return args[0][0] if args[0] else args[1]
             if nm == "set":
                 return set(args[0]) if args else set()
             if nm == "frozenset":
